@@ -52,5 +52,5 @@ def cases(tier, seed):
             for n in ((1, 2, 3, 4) if not thorough else (1, 2, 3, 4, 5, 6, 8)):
                 out.append(qr_case(ty, n, False, cfg))
                 if n <= (3 if not thorough else 5): out.append(qr_case(ty, n, True, cfg))
-                if n >= 2 and n <= (4 if not thorough else 6): out.append(qrdet_case(ty, n, cfg))
+                if n == 2 or (thorough and n == 3): out.append(qrdet_case(ty, n, cfg))   # two QR factorisations in one UF query: larger sizes exceed the budget
     return out
